@@ -60,6 +60,10 @@ func (ps *PartitionSet) AddRange(partName, modelName string, start, end, modulo 
 			return
 		}
 		ps.partitions[i] = partitionIndex
+		if modulo > end-i {
+			// next site would be after end (and i+modulo may overflow)
+			break
+		}
 	}
 	return
 }
